@@ -257,6 +257,30 @@ Definition new_verifier (oci blob : option doc) : errc :=
       (match blob with Some d => validate Blob d | None => EOk end)
   end.
 
+(* the ways a verifier is constructed from documents held in memory
+   (verifier/verifier.go). All of them end in NewVerifierWithOptions:
+     New(oci, store, pm)                  = NewVerifierWithOptions(store, {OCITrustPolicy: oci})
+     NewWithOptions(oci, store, pm, opts) = opts.OCITrustPolicy = oci (whatever opts carried
+                                            there before - the decoy - is overwritten);
+                                            NewVerifierWithOptions(store, opts)
+   and NewVerifierWithOptions refuses a nil trust store before anything else. *)
+Inductive ctor :=
+| CtorOptions                              (* NewVerifierWithOptions(store, {oci, blob}) *)
+| CtorNilStore                             (* NewVerifierWithOptions(nil, {oci, blob}) *)
+| CtorNew                                  (* New(oci, store, nil): no blob document can be given *)
+| CtorWithOptions (decoy : option doc).    (* NewWithOptions(oci, store, nil, {decoy, blob}) *)
+
+Definition new_verifier_store (store_nil : bool) (oci blob : option doc) : errc :=
+  if store_nil then EStoreNil else new_verifier oci blob.
+
+Definition construct (c : ctor) (oci blob : option doc) : errc :=
+  match c with
+  | CtorOptions => new_verifier_store false oci blob
+  | CtorNilStore => new_verifier_store true oci blob
+  | CtorNew => new_verifier_store false oci None
+  | CtorWithOptions _ => new_verifier_store false oci blob
+  end.
+
 (* ---------- the level a statement yields ---------- *)
 
 (* a verification level as observed: its name and, for the validation types in
@@ -279,11 +303,15 @@ Definition level_obs (s : stmt) : option (string * string) :=
 
 (* ---------- cases ---------- *)
 
-Record input := mk_input {
+Record input := mk_input_c {
   i_kind : kind;
   i_doc : option doc;        (* the document under test (None = nil pointer) *)
-  i_other : option doc }.    (* the document of the other kind handed to
-                                NewVerifierWithOptions together with it *)
+  i_other : option doc;      (* the document of the other kind handed to the
+                                constructor together with it *)
+  i_ctor : ctor }.           (* which constructor builds the verifier *)
+
+(* the ordinary case: NewVerifierWithOptions with a trust store *)
+Definition mk_input (k : kind) (d o : option doc) : input := mk_input_c k d o CtorOptions.
 
 Record obs := mk_obs {
   o_val : errc;              (* Validate on the Go struct *)
@@ -301,7 +329,7 @@ Definition other_kind (k : kind) : kind := match k with OCI => Blob | Blob => OC
 (* what the harness observes, written with the specification functions *)
 Definition model_spec (i : input) : obs :=
   let v := validate_ptr (i_kind i) (i_doc i) in
-  mk_obs v (validate_json (i_kind i) (i_doc i)) (new_verifier (oci_of i) (blob_of i))
+  mk_obs v (validate_json (i_kind i) (i_doc i)) (construct (i_ctor i) (oci_of i) (blob_of i))
     (match v, i_doc i with EOk, Some d => map level_obs (d_stmts d) | _, _ => [] end).
 
 (* the same function with every Validate evaluated once (vm_compute shares a
@@ -311,9 +339,13 @@ Definition model (i : input) : obs :=
   let vj := match i_doc i with None => validate (i_kind i) (mk_doc "" []) | Some _ => v end in
   let vd := match i_doc i with None => EOk | Some _ => v end in
   let vo := match i_other i with None => EOk | Some d => validate (other_kind (i_kind i)) d end in
-  let nv := match i_doc i, i_other i with
-            | None, None => EBothNil
-            | _, _ => match i_kind i with OCI => vd ;; vo | Blob => vo ;; vd end
+  let nv := match i_ctor i with
+            | CtorOptions | CtorWithOptions _ =>
+                match i_doc i, i_other i with
+                | None, None => EBothNil
+                | _, _ => match i_kind i with OCI => vd ;; vo | Blob => vo ;; vd end
+                end
+            | c => construct c (oci_of i) (blob_of i)
             end in
   mk_obs v vj nv
     (match v, i_doc i with EOk, Some d => map level_obs (d_stmts d) | _, _ => [] end).
@@ -468,6 +500,15 @@ Definition new_expected (i : input) (acc_doc : bool) : bool :=
   | Some _, Some o => acc_doc && wellformed_b (other_kind (i_kind i)) o
   end.
 
+(* the same for every constructor: nothing is constructed without a trust
+   store; New hands over the OCI document only *)
+Definition construct_expected (i : input) (acc_doc : bool) : bool :=
+  match i_ctor i with
+  | CtorOptions | CtorWithOptions _ => new_expected i acc_doc
+  | CtorNilStore => false
+  | CtorNew => match oci_of i with None => false | Some d => wellformed_b OCI d end
+  end.
+
 (* hand-written alphabets (NOT taken from Generated.v): what an accepted store
    name and an accepted scope may consist of, whatever the regular
    expressions of the source say now *)
@@ -513,7 +554,7 @@ Definition fp (i : input) (o : obs) : N :=
   let a := accept_expected (i_kind i) (i_doc i) in
   if negb (Bool.eqb (is_ok (o_val o)) a) then 1
   else if negb (Bool.eqb (is_ok (o_json o)) a) then 2
-  else if negb (Bool.eqb (is_ok (o_new o)) (new_expected i a)) then 3
+  else if negb (Bool.eqb (is_ok (o_new o)) (construct_expected i a)) then 3
   else if is_ok (o_val o)
        && negb (match i_doc i with Some d => levels_ok (d_stmts d) (o_levels o) | None => false end)
   then 4
